@@ -286,10 +286,13 @@ class Simulator(BaseSimObj):
             ] = schedule_matrix
         else:
             # We've reached the end of pilot_signals, so double pilot_signal array width
+            # The event queue may already be empty (schedule submitted in the last
+            # period), in which case there is no last timestamp to account for.
+            last_timestamp = self.event_queue.get_last_timestamp()
             self.pilot_signals = _increase_width(
                 self.pilot_signals,
                 max(
-                    self.event_queue.get_last_timestamp() + 1,
+                    last_timestamp + 1 if last_timestamp is not None else 0,
                     self._iteration + schedule_length,
                 ),
             )
